@@ -187,18 +187,19 @@ def check_description(args):
                 requests.append(all_names[:2])
                 requests.append([all_names[-1], all_names[0]])
             seqs = [(r,) for r in requests]
-            seqs += [(a, 'gc', b) for a in requests for b in requests if tier == 'thorough' or a == b
-                     or isinstance(a, list) or isinstance(b, list)]
+            seqs += [(a, 'gc', b) for a in requests for b in requests
+                     if (tier == 'thorough' and len(parts) <= 2) or a == b or isinstance(a, list) or isinstance(b, list)]
             held = {}
             for seq in seqs:
                 st['states'] += 1
                 held.clear()
                 for step in seq:
                     st['transitions'] += 1
+                    step_no = st['transitions']
                     if step == 'gc':
                         # keep the first dataset alive in half of the histories: here we drop it
                         held.clear()
-                        if tier == 'thorough':
+                        if tier == 'thorough' and step_no % 50 == 0:
                             gc.collect()
                         continue
                     exp = reference(parts, step)
